@@ -119,23 +119,145 @@ inductive UfuncRoute where
   | outerAsCall         -- `outer`: inputs reshaped, then `elemwise`
   | arrayFunction       -- ufunc with a core signature: handed to `__array_function__`
   | notImplemented
+  | split (parts : List Name)
+      -- a ufunc with several results: `return (np.<p₀>(*inputs, **kwargs), np.<p₁>(*inputs, **kwargs), …)` — each component is an
+      -- ordinary ufunc call on the caller's operands and is dispatched again
   deriving Repr, DecidableEq
 
-/-- `SparseArray.__array_ufunc__(ufunc, method, *inputs, out=…)`: `outOk` = every `out` operand is of the array's own type
-(or there is none); `hasSignature` = `ufunc.signature is not None` -/
-def arrayUfunc (outOk hasSignature : Bool) (method : String) : UfuncRoute :=
-  if !outOk then .notImplemented
+/-- `SparseArray.__array_ufunc__(ufunc, method, *inputs, out=…)`, in the order of the tests in the source:
+`outGiven` = an `out=` was passed; `outOk` = every `out` operand is of the array's own type; `hasSignature` =
+`ufunc.signature is not None`; `multi` = `ufunc.nout != 1`; `splitOf` = what the `nout != 1` branch computes this ufunc as
+(`Gen.ufuncMultiOutSplit`, read off the source; `none`: nothing).  `Gen.ufuncMultiOutGuard` says whether the source has that
+branch at all. -/
+def arrayUfunc (outGiven outOk hasSignature multi : Bool) (splitOf : Option (List Name)) (method : String) : UfuncRoute :=
+  if outGiven && !outOk then .notImplemented
   else if hasSignature then .arrayFunction
+  else if ufuncMultiOutGuard && multi then
+    match splitOf with
+    | some parts => if method == "__call__" && !outGiven then .split parts else .notImplemented
+    | none => .notImplemented
   else if method == "outer" then .outerAsCall
   else if method == "__call__" then .elemwise
   else if method == "reduce" then .reduce
   else .notImplemented
 
-/-- the two ufunc methods the tables use, without string tests (the kernel evaluates these) -/
+/-- the routing of the NumPy ufunc named `u` (signature, number of results and the split read from the generated tables) -/
+def arrayUfuncOf (u : Name) (outGiven outOk : Bool) (method : String) : UfuncRoute :=
+  arrayUfunc outGiven outOk (gufuncs.contains u) (multiOutUfuncs.contains u) (ufuncMultiOutSplit.lookup u) method
+
+/-- the two ufunc methods the tables use, without string tests (the kernel evaluates these); single-result ufuncs, no `out=` -/
 def arrayUfuncCall (outOk hasSignature : Bool) : UfuncRoute :=
   if !outOk then .notImplemented else if hasSignature then .arrayFunction else .elemwise
 def arrayUfuncReduce (outOk hasSignature : Bool) : UfuncRoute :=
   if !outOk then .notImplemented else if hasSignature then .arrayFunction else .reduce
+
+/-- what a ufunc call hands back, as a description of the computation: ONE array computed by `route` for the ufunc `u` on the
+operands `ops` in that order (`route = notImplemented`: NumPy raises TypeError), or the TUPLE of the results of the component
+calls.  `α` is whatever identifies an operand: the theorems hold for every operand list. -/
+inductive UResult (α : Type) where
+  | one (u : Name) (route : UfuncRoute) (ops : List α)
+  | tuple (parts : List (UResult α))
+
+/-- `np.<u>.<method>(*ops[, out=…])` followed through `__array_ufunc__`: a split hands every component ufunc the SAME operand
+list (`*inputs`) with `out` already popped, through `__call__`; each such call is dispatched again (`fuel` bounds the nesting;
+the generated split has depth one). -/
+def ufuncResult {α : Type} : Nat → Name → String → Bool → Bool → List α → UResult α
+  | 0, u, _, _, _, ops => .one u .notImplemented ops
+  | fuel + 1, u, method, outGiven, outOk, ops =>
+    match arrayUfuncOf u outGiven outOk method with
+    | .split parts => .tuple (parts.map fun p => ufuncResult fuel p "__call__" false true ops)
+    | r => .one u r ops
+
+/-- the ufunc (and role) a special method of NumPy's operator mixin calls -/
+def opUfunc (dunder : Name) : Option (Name × Name) := (operatorTable.find? (fun e => e.1 == dunder)).map (·.2)
+
+/-! ### the trial call of the out= path -/
+
+/-- Before anything is computed for `out=`, the ufunc is tried on one-element arrays of the operands' dtypes (to learn whether the
+requested output is admissible: casting).  `raisesOn v`: does the ufunc raise when every array operand holds the value `v`
+(integer `power` does for a negative exponent).  The source builds those arrays with `np.ones` (`Gen.ufuncOutTrialOnes`) or with
+`np.empty` — then they hold whatever the memory held, `mem`. -/
+def outTrialRaises (raisesOn : Int → Bool) (mem : Int) : Bool :=
+  raisesOn (if ufuncOutTrialOnes then 1 else mem)
+
+/-! ### what `out=` holds afterwards -/
+
+/-- a storage format; a GCXS carries its compressed axes -/
+inductive Fmt where
+  | coo | gcxs (axes : List Nat) | dok
+  deriving Repr, DecidableEq
+
+/-- the class of a format (`type(x)`) -/
+def Fmt.cls : Fmt → Name
+  | .coo => nm_COO | .gcxs _ => nm_GCXS | .dok => nm_DOK
+
+/-- what the computation produced: a dense `ndarray`, or a sparse array of some format -/
+inductive Computed where
+  | dense | sparse (f : Fmt)
+  deriving Repr, DecidableEq
+
+/-- the caller's `out` object after the call: its class never changes (it is the same Python object); `holds` says whose
+attribute dictionary it now carries (`_make_shallow_copy_of` replaces `__dict__` wholesale) -/
+structure Stored where
+  cls : Name
+  holds : Computed
+  deriving Repr, DecidableEq
+
+/-- `holds` is the attribute dictionary of an array of the object's own class -/
+def Stored.wellFormed (s : Stored) : Bool :=
+  match s.holds with
+  | .dense => false
+  | .sparse f => f.cls == s.cls
+
+structure OutState where
+  result : Computed         -- the local `result`
+  stored : Computed         -- the attribute dictionary `out` carries
+  deriving Repr, DecidableEq
+
+/-- one statement of the out= block.  `o`: the format of `out` before the call; `shapeOk`: `out.shape == result.shape`; `dflt`:
+the compressed axes `asformat("gcxs")` picks when it is not told any.  `.ok (st, true)`: `return out` was reached.
+`ndarray.asformat` does not exist (AttributeError → `Err.internal`). -/
+def outStep (o : Fmt) (shapeOk : Bool) (dflt : List Nat) (st : OutState) : OutStep → Except Err (OutState × Bool)
+  | .unpack => .ok (st, false)
+  | .shapeCheck => if shapeOk then .ok (st, false) else .error Err.value
+  | .refuseDense => if st.result == .dense then .error Err.value else .ok (st, false)
+  | .convertFormat keepAxes =>
+    match st.result with
+    | .dense => .error Err.internal
+    | .sparse f =>
+      if f.cls == o.cls then .ok (st, false)
+      else
+        let conv : Fmt := match o with
+          | .gcxs ax => .gcxs (if keepAxes then ax else dflt)
+          | other => other
+        .ok ({ st with result := .sparse conv }, false)
+  | .shallowCopy => .ok ({ st with stored := st.result }, false)
+  | .returnOut => .ok (st, true)
+
+/-- run the statements of the out= block; falling off its end goes on to `return result` (the caller then gets `result`, and
+`out` holds whatever was stored so far) -/
+def outRun (o : Fmt) (shapeOk : Bool) (dflt : List Nat) : List OutStep → OutState → Except Err OutState
+  | [], st => .ok st
+  | s :: rest, st =>
+    match outStep o shapeOk dflt st s with
+    | .error e => .error e
+    | .ok (st', true) => .ok st'
+    | .ok (st', false) => outRun o shapeOk dflt rest st'
+
+/-- `out` after `ufunc(…, out=(out,))` whose computation produced `r`, for the out= block `steps` -/
+def outStore (steps : List OutStep) (o : Fmt) (r : Computed) (shapeOk : Bool) (dflt : List Nat) : Except Err Stored :=
+  match outRun o shapeOk dflt steps { result := r, stored := .sparse o } with
+  | .error e => .error e
+  | .ok st => .ok { cls := o.cls, holds := st.stored }
+
+/-- the format of the result of an element-wise call on sparse operands of the formats `fs` (`_Elemwise.__init__`): all DOK → DOK;
+all GCXS → GCXS (the common compressed axes if they agree, else the default); anything else → COO -/
+def elemwiseFormat (dflt : List Nat) (fs : List Fmt) : Fmt :=
+  if fs.all (fun f => f == .dok) then .dok
+  else match fs with
+    | .gcxs ax :: rest =>
+      if rest.all (fun f => f.cls == nm_GCXS) then (if rest.all (fun f => f == .gcxs ax) then .gcxs ax else .gcxs dflt) else .coo
+    | _ => .coo
 
 /-- the `outer` branch: the inputs (given by their numbers of dimensions) are walked in REVERSE; each is indexed with
 `(..., None * cum)` where `cum` is the total dimension count of the inputs walked before it (= the inputs AFTER it in the
